@@ -346,7 +346,9 @@ func (e *Env) processFailures(s *Spec, agg *Agg, known *Known) (*Outcome, error)
 			}
 		}
 		rangeMode := false
-		if !match(f, rr) && f.Class != "race" && f.Class != "native-disagreement" && !strings.HasPrefix(f.Site, "process:") {
+		if !match(f, rr) && f.Class != "race" && f.Class != "native-disagreement" {
+			// (also for the process clauses: what poisoned the process may have been compiled by an
+			// earlier unit of the same worker, which a replay of the one unit does not contain)
 			// not a function of the case alone: does it depend on what the process did before?  Try
 			// the failing unit alone, then the units of the original worker process up to it.
 			ranges := [][2]int{{f.Run, 1}}
